@@ -122,8 +122,12 @@ class unix_disabled(uh.ifc.DisabledHash, uh.MinimalHandler):
         if hash is not None:
             hash = to_native_str(hash, param="hash")
             if cls.identify(hash):
-                # extract original hash, so that we normalize marker
-                hash = cls.enable(hash)
+                # strip the existing marker, so that the marker gets normalized;
+                # a bare marker (or the empty string) carries no original hash.
+                for prefix in cls._disable_prefixes:
+                    if hash.startswith(prefix):
+                        hash = hash[len(prefix) :]
+                        break
             if hash:
                 out += hash
         return out
